@@ -109,6 +109,7 @@ type frame struct {
 	defers []deferRec
 	free   []Value
 	skipG  map[*ssa.BasicBlock]*Term // map-range: visit condition for the pending iteration of the header block
+	bad    *Term                     // panic conditions raised by the current instruction
 }
 
 type abortErr struct{ msg string }
@@ -457,9 +458,20 @@ func (fr *frame) execBlock(b *ssa.BasicBlock) {
 		fr.set(phi, g, phiVals[i])
 	}
 	for _, ins := range b.Instrs[len(phis):] {
+		fr.bad = nil
 		g = fr.execInstr(b, ins, g)
 		if g == False {
 			return
+		}
+		if fr.bad != nil {
+			switch ins.(type) {
+			case *ssa.If, *ssa.Jump, *ssa.Return:
+			default:
+				g = prune(And(g, Not(fr.bad)))
+				if g == False {
+					return
+				}
+			}
 		}
 	}
 }
@@ -511,6 +523,12 @@ func (fr *frame) panicAt(cond *Term, kind string, pos token.Pos) {
 		return
 	}
 	fr.e.addOblig("panic", kind, fr.e.posStr(pos, fr.fn), cond)
+	// the path that panics does not continue: execBlock strengthens the guard after the instruction
+	if fr.bad == nil {
+		fr.bad = cond
+	} else {
+		fr.bad = Or(fr.bad, cond)
+	}
 }
 
 // ---------- memory ----------
